@@ -179,8 +179,10 @@ pub fn build_file(case: &Value) -> Vec<u8> {
     let xobj_dict = json!({"d": xobj.iter().map(|(n, r)| json!([n, r])).collect::<Vec<_>>()});
     for (name, prog) in &forms {
         let id = form_ids[name];
+        // inside a form the two font names mean the OTHER font objects: a form's resources are its own (8.10.1)
+        let form_fonts = dd(vec![("F1", rf(6)), ("F2", rf(5))]);
         objects.push(json!({"n": id, "g": 0, "dict": dd(vec![("Type", nm("XObject")), ("Subtype", nm("Form")), ("BBox", json!([0, 0, 2000, 2000])),
-            ("Resources", dd(vec![("Font", fonts.clone()), ("XObject", xobj_dict.clone())]))]), "data": content_of(prog), "filter": null}));
+            ("Resources", dd(vec![("Font", form_fonts), ("XObject", xobj_dict.clone())]))]), "data": content_of(prog), "filter": null}));
     }
     objects.push(json!({"n": 3, "g": 0, "value": dd(vec![("Type", nm("Page")), ("Parent", rf(2)), ("MediaBox", json!([0, 0, 2000, 2000])), ("Contents", rf(4)),
         ("Resources", dd(vec![("Font", fonts.clone()), ("XObject", xobj_dict.clone())]))])}));
@@ -207,7 +209,7 @@ fn extract(bytes: &[u8], bits: u64) -> Value {
     let r = std::panic::catch_unwind(move || -> Result<String, String> {
         let reader = PdfReader::new_with_options(Cursor::new(b), ParseOptions::default()).map_err(|e| e.to_string())?;
         let doc = reader.into_document();
-        let mut ex = TextExtractor::with_options(options_of(bits));
+        let mut ex = TextExtractor::with_options(options_of(bits)).with_reading_order(bits & 128 != 0);
         let t = ex.extract_from_page(&doc, 0).map_err(|e| e.to_string())?;
         let mut all = t.text.clone();
         // in layout mode the fragments carry the text as well: they must tell the same story
